@@ -29,10 +29,13 @@ var prop = &pbt.Prop{
 		}
 		c := &pbt.Case{}
 		c.Spec = gen.Draw(t, gen.Regular(), rapid.IntRange(1, maxB).Draw(t, "budget"))
+		// (empty strings where they have a documented meaning: the prefix of
+		// WithMessage / Wrap, hints, details)
+		gen.SprinkleEmpty(t, c.Spec)
 		c.SetInt("hops", rapid.IntRange(2, maxK).Draw(t, "hops"))
 		return c
 	},
-	Valid: func(c *pbt.Case) bool { return gen.SpecRegular(c.Spec) && c.Int("hops") >= 1 },
+	Valid: func(c *pbt.Case) bool { return gen.SpecRegularOrEmpty(c.Spec) && c.Int("hops") >= 1 },
 	Check: check,
 }
 
